@@ -65,10 +65,13 @@ Sxx(a, b) == (b - a) * Sum(Prod(X, X), a, b) - Sum(X, a, b) * Sum(X, a, b)
 Sxy(a, b) == (b - a) * Sum(Prod(X, Y), a, b) - Sum(X, a, b) * Sum(Y, a, b)
 Syy(a, b) == (b - a) * Sum(Prod(Y, Y), a, b) - Sum(Y, a, b) * Sum(Y, a, b)
 FullRank(a, b) == Sxx(a, b) # 0
+\* (when the feature is constant on the range the design is rank deficient, but the least-squares RESIDUAL is still
+\*  unique: the best line is the constant mean, RSS = Syy / m)
 MseLinear(a, b) == IF b - a <= 2 THEN <<0, 1>>                              \* not more rows than coefficients: 0 by the code
+                   ELSE IF Sxx(a, b) = 0 THEN <<Syy(a, b), (b - a) * (b - a)>>
                    ELSE <<Sxx(a, b) * Syy(a, b) - Sxy(a, b) * Sxy(a, b), (b - a) * (b - a) * Sxx(a, b)>>
 Mse(a, b) == IF kind = "linear" THEN MseLinear(a, b) ELSE MseConst(a, b)
-Claimed(a, b) == kind # "linear" \/ b - a <= 2 \/ FullRank(a, b)           \* rank-deficient ranges are not claimed
+Claimed(a, b) == TRUE
 
 NodeValue    == MeanOf(start, end)
 NodeImpurity == Mse(start, end)
